@@ -331,11 +331,9 @@ def run_lowerer(ck, events):
     has_set = any(e.get("op") == "window_set" for v in per.values() for e in v)
     ck.coverage["lowerer_hook"] = {"compiles": n_comp, "compiled_ok": n_ok, "traces": len(per), "ops": n_ops}
     if n_ok and not has_set:
-        # /repo is frozen without hooks/lowerer-window.diff (SYNC 5): the stream cannot run there.  Said, not hidden: the
-        # evidence and the assumptions carry it; Model/WinLower.v is then tied by the translator's pins of lowering.rs only.
-        # With VERIF_REPO=<tree with the patch applied> the stream runs (13 812 traces, 0 differences when it was built).
-        ck.coverage["lowerer_hook"]["stream"] = "NOT RUN: verif:lowerer_op of this tree logs no window_set / window_take / window_reset (hooks/lowerer-window.diff not applied)"
-        ck.assumptions.append("lower-corr was not run: the tree lacks hooks/lowerer-window.diff; the model of the Lowerer's window field (Model/WinLower.v) is tied to lowering.rs by the translator's shape pins (every use of self.window accounted for) only")
+        # fail closed: a tree without the lowerer-window hook (/repo 435d73d) ties nothing
+        ck.violation("hook verif:lowerer_op logs no `window_set` operation on %d successful compiles (the lowerer-window hook is not in the tree): "
+                     "the model of the Lowerer's window field is not tied to the code" % n_ok, {"kind": "hook-missing", "hook": "verif:lowerer_op window_set"}, no_input=True)
         return
     traces = {}
     for (s, t), ops in per.items():
